@@ -198,8 +198,8 @@ theorem exec_breakIf (I : Interp σ) (fuel : Nat) (bi : Option Nat) (s : σ) (fs
     by_cases hc : I.cond c s = true <;> simp [breakIfC, execCB, execC, evalCCond, biS, hc]
 
 /-- the body of the emitted `while(true)` of a loop with a continuing block -/
-def gateBody (body cont : B) (bi : Option Nat) : CB :=
-  .cons (.ite .notFlag (CB.append (emitB cont) (breakIfC bi)) .nil) (.cons (.setFlag false) (emitB body))
+def gateBody (bodyC contC : CB) (bi : Option Nat) : CB :=
+  .cons (.ite .notFlag (CB.append contC (breakIfC bi)) .nil) (.cons (.setFlag false) bodyC)
 
 /-- the continuation of the WGSL loop after a body that completed (or `continue`d) with `n` units left -/
 def afterBody (bodyS contS : σ → Out σ) (b : σ → Bool) : Nat → σ → Out σ
@@ -234,22 +234,22 @@ theorem whileC_succ (W : CSt σ → Out (CSt σ)) (n : Nat) (s : CSt σ) :
   rw [whileC]; cases W s <;> rfl
 
 section gate
-variable (I : Interp σ) (fuel : Nat) (body cont : B) (bi : Option Nat)
-variable (hbody : ∀ s fs, execCB I fuel (emitB body) (s, fs) = lift fs (execB I fuel body s))
-variable (hcont : ∀ s fs, execCB I fuel (emitB cont) (s, fs) = lift fs (execB I fuel cont s))
-variable (hnb : ∀ s s1, execB I fuel cont s ≠ .brk s1) (hnc : ∀ s s1, execB I fuel cont s ≠ .cont s1)
+variable (I : Interp σ) (fuel : Nat) (bodyC contC : CB) (bodyS contS : σ → Out σ) (bi : Option Nat)
+variable (hbody : ∀ s fs, execCB I fuel bodyC (s, fs) = lift fs (bodyS s))
+variable (hcont : ∀ s fs, execCB I fuel contC (s, fs) = lift fs (contS s))
+variable (hnb : ∀ s s1, contS s ≠ .brk s1) (hnc : ∀ s s1, contS s ≠ .cont s1)
 include hbody hcont hnb hnc
 
 theorem gateBody_false (fs : List Bool) (s1 : σ) :
-    execCB I fuel (gateBody body cont bi) (s1, false :: fs) =
-      match execB I fuel cont s1 with
-      | .normal s2 => if biS I bi s2 then .brk (s2, false :: fs) else lift (false :: fs) (execB I fuel body s2)
+    execCB I fuel (gateBody bodyC contC bi) (s1, false :: fs) =
+      match contS s1 with
+      | .normal s2 => if biS I bi s2 then .brk (s2, false :: fs) else lift (false :: fs) (bodyS s2)
       | .ret s2 => .ret (s2, false :: fs)
       | .fuel => .fuel
       | .brk s2 => .brk (s2, false :: fs)
       | .cont s2 => .cont (s2, false :: fs) := by
   simp only [gateBody, execCB, execC, evalCCond, List.headD_cons, Bool.not_false, if_true, execCB_append, hcont]
-  cases hc : execB I fuel cont s1 with
+  cases hc : contS s1 with
   | brk s2 => simp
   | cont s2 => simp
   | ret s2 => simp
@@ -261,19 +261,19 @@ theorem gateBody_false (fs : List Bool) (s1 : σ) :
     · simp [hb, hbody]
 
 theorem gateBody_true (fs : List Bool) (s : σ) :
-    execCB I fuel (gateBody body cont bi) (s, true :: fs) = lift (false :: fs) (execB I fuel body s) := by
+    execCB I fuel (gateBody bodyC contC bi) (s, true :: fs) = lift (false :: fs) (bodyS s) := by
   simp [gateBody, execCB, execC, evalCCond, hbody]
 
 theorem gate_false (fs : List Bool) : ∀ n s1,
-    whileC (execCB I fuel (gateBody body cont bi)) n (s1, false :: fs) =
-      lift (false :: fs) (afterBody (execB I fuel body) (execB I fuel cont) (biS I bi) n s1) := by
+    whileC (execCB I fuel (gateBody bodyC contC bi)) n (s1, false :: fs) =
+      lift (false :: fs) (afterBody bodyS contS (biS I bi) n s1) := by
   intro n
   induction n with
   | zero => intro s1; simp [whileC, afterBody]
   | succ m ih =>
     intro s1
-    rw [whileC_succ, gateBody_false I fuel body cont bi hbody hcont hnb hnc, afterBody]
-    cases hc : execB I fuel cont s1 with
+    rw [whileC_succ, gateBody_false I fuel bodyC contC bodyS contS bi hbody hcont hnb hnc, afterBody]
+    cases hc : contS s1 with
     | brk s2 => exact absurd hc (hnb s1 s2)
     | cont s2 => exact absurd hc (hnc s1 s2)
     | ret s2 => simp
@@ -283,7 +283,7 @@ theorem gate_false (fs : List Bool) : ∀ n s1,
       by_cases hb : biS I bi s2 = true
       · simp [hb]
       · simp only [hb, if_false, Bool.false_eq_true, loopS_succ_true]
-        cases hbd : execB I fuel body s2 with
+        cases hbd : bodyS s2 with
         | normal s3 => simpa using ih s3
         | cont s3 => simpa using ih s3
         | brk s3 => simp
@@ -291,14 +291,14 @@ theorem gate_false (fs : List Bool) : ∀ n s1,
         | fuel => simp
 
 theorem gate_true (fs : List Bool) (n : Nat) (s : σ) :
-    whileC (execCB I fuel (gateBody body cont bi)) n (s, true :: fs) =
-      lift (false :: fs) (loopS (execB I fuel body) (execB I fuel cont) true (biS I bi) n s) := by
+    whileC (execCB I fuel (gateBody bodyC contC bi)) n (s, true :: fs) =
+      lift (false :: fs) (loopS bodyS contS true (biS I bi) n s) := by
   cases n with
   | zero => simp [whileC, loopS]
   | succ m =>
-    rw [whileC_succ, gateBody_true I fuel body cont bi hbody hcont hnb hnc, loopS_succ_true]
-    have ih := gate_false I fuel body cont bi hbody hcont hnb hnc fs m
-    cases hbd : execB I fuel body s with
+    rw [whileC_succ, gateBody_true I fuel bodyC contC bodyS contS bi hbody hcont hnb hnc, loopS_succ_true]
+    have ih := gate_false I fuel bodyC contC bodyS contS bi hbody hcont hnb hnc fs m
+    cases hbd : bodyS s with
     | normal s3 => simpa using ih s3
     | cont s3 => simpa using ih s3
     | brk s3 => simp
@@ -309,16 +309,16 @@ end gate
 
 /-! ### loops without continuing block -/
 
-theorem plain_loop (I : Interp σ) (fuel : Nat) (body : B) (contS : σ → Out σ) (b : σ → Bool)
-    (hbody : ∀ s fs, execCB I fuel (emitB body) (s, fs) = lift fs (execB I fuel body s)) (fs : List Bool) :
-    ∀ n s, whileC (execCB I fuel (emitB body)) n (s, fs) = lift fs (loopS (execB I fuel body) contS false b n s) := by
+theorem plain_loop (I : Interp σ) (fuel : Nat) (bodyC : CB) (bodyS contS : σ → Out σ) (b : σ → Bool)
+    (hbody : ∀ s fs, execCB I fuel bodyC (s, fs) = lift fs (bodyS s)) (fs : List Bool) :
+    ∀ n s, whileC (execCB I fuel bodyC) n (s, fs) = lift fs (loopS bodyS contS false b n s) := by
   intro n
   induction n with
   | zero => intro s; simp [whileC, loopS]
   | succ m ih =>
     intro s
     rw [whileC_succ, hbody, loopS]
-    cases hbd : execB I fuel body s with
+    cases hbd : bodyS s with
     | normal s1 => simpa using ih s1
     | cont s1 => simpa using ih s1
     | brk s1 => simp
@@ -361,8 +361,9 @@ mutual
       simp only [emitS, execS]
       by_cases hh : (!cont.isNil || bi.isSome) = true
       · simp only [hh, if_true, execC, execCB]
-        have hg := gate_true I fuel body cont bi hbody hcont (noBrkB I fuel cont hnb) (noContB I fuel cont hnc) fs fuel s
-        change popFlag (match whileC (execCB I fuel (gateBody body cont bi)) fuel (s, true :: fs) with
+        have hg := gate_true I fuel (emitB body) (emitB cont) (execB I fuel body) (execB I fuel cont) bi hbody hcont
+          (noBrkB I fuel cont hnb) (noContB I fuel cont hnc) fs fuel s
+        change popFlag (match whileC (execCB I fuel (gateBody (emitB body) (emitB cont) bi)) fuel (s, true :: fs) with
           | .normal s1 => .normal s1 | o => o) = _
         rw [hg]
         have : (match lift (false :: fs) (loopS (execB I fuel body) (execB I fuel cont) true (biS I bi) fuel s) with
@@ -373,7 +374,7 @@ mutual
         rfl
       · have hf : (!cont.isNil || bi.isSome) = false := by simpa using hh
         simp only [hf, Bool.false_eq_true, if_false, execC]
-        exact plain_loop I fuel body (execB I fuel cont) _ hbody fs fuel s
+        exact plain_loop I fuel (emitB body) (execB I fuel body) (execB I fuel cont) _ hbody fs fuel s
     | .switch sel cs, h, s, fs => by
       simp only [emitS, execC, execS, hasLabel_emitCs]
       have := emitCs_sound I fuel cs (by simpa [wfS] using h) (I.sel sel s) false (hasMatch cs (I.sel sel s)) s fs
